@@ -980,3 +980,32 @@ Lemma wait_sees_due cfg d h b :
 Proof.
   intros Hwf Hout Hdue. cbn [step snd] in Hout. inversion Hout. now apply due_armed.
 Qed.
+
+(* ---- what a dastard started after a completed save restores ---- *)
+Lemma slookup_filter (p : string -> bool) (m : config) k :
+  p k = true -> slookup k (filter (fun kv => p (fst kv)) m) = slookup k m.
+Proof.
+  intro Hp. unfold slookup. induction m as [|[k0 v0] r IH]; cbn [filter lookup fst]; [reflexivity|].
+  destruct (p k0) eqn:E0; cbn [lookup].
+  - destruct (String.eqb k k0); [reflexivity | exact IH].
+  - destruct (String.eqb k k0) eqn:E; [|exact IH].
+    apply String.eqb_eq in E; subst. congruence.
+Qed.
+
+(* a dastard started after a completed save restores, for every persistent topic it restores at all,
+   the latest value *)
+Lemma restart_restores cfg d h now l :
+  Forall wf_event h -> consistent h -> case_distinct h ->
+  snd (step (fst (step (fst (run (init_sys cfg d) h)) (SaveTick now []))) Restart) = Restored l ->
+  forall t o, persistent_topic t = true -> restorable_topic t = true -> last_obj t h = Some o ->
+              slookup (to_lower t) l = Some o.
+Proof.
+  intros Hwf Hcons Hdist Hout t o Hp Hr Hl.
+  destruct (saved_latest cfg d h now Hwf Hcons Hdist) as (saved & Hst & Hspec & _).
+  cbn zeta in Hst.
+  set (y' := fst (step (fst (run (init_sys cfg d) h)) (SaveTick now []))) in *.
+  cbn [step snd] in Hout. rewrite Hst in Hout. inversion Hout as [Hl']. clear Hout.
+  unfold restorable_topic in Hr.
+  etransitivity; [exact (slookup_filter (fun k => mem_str k restorable_keys) saved (to_lower t) Hr)|].
+  now apply Hspec.
+Qed.
